@@ -65,7 +65,7 @@ M("c03_epscut_delta_half", AD, "                2 * log(n_elements) / self.delta
 M("c03_window_thresh_ge", AD, "and self._window_size > self.window_size_thresh", "and self._window_size >= self.window_size_thresh", ["C03", "C01"])
 M("c03_empty_tail_rows_again", AD, "        while (\n            self._bucket_row_list.size > 1\n            and self._bucket_row_list.tail.bucket_count == 0\n        ):\n            self._bucket_row_list.remove_tail()", "        if curr_bucket_row.bucket_count == 0:\n            self._bucket_row_list.remove_tail()", ["C03"])
 M("c03_accuracy_default_period", AA, "            new_sample_thresh=new_sample_thresh,\n", "            new_sample_thresh=32,\n", ["C03"])
-M("c03_accuracy_inverted_indicator", AA, "new_value = int(y_true == y_pred)", "new_value = int(y_true != y_pred)", ["C03", "C16"])
+M("c03_accuracy_inverted_indicator", AA, "new_value = int(y_true == y_pred)", "new_value = int(y_true != y_pred)", ["C03"])
 M("c03_conservative_bound_swapped", AD, "        if not self.conservative_bound:\n", "        if self.conservative_bound and self._window_size > 64 or not self.conservative_bound:\n", ["C03"])
 M("c03_variance_first_sample", AD, "        if self._window_size > 1:\n            self._curr_variance += (", "        if self._window_size > 2:\n            self._curr_variance += (", ["C03"])
 
@@ -125,7 +125,7 @@ M("c07_reference_not_replaced", HD, "                    self._drift_state = \"d
 M("c07_feature_info_min", HD, "                                max(self.feature_epsilons)\n", "                                min(self.feature_epsilons)\n", ["C07"])
 M("c07_lambda_stale_again", HD, "        # the epoch starts here, also when the user sets a new reference\n        self._lambda = self.total_batches\n", "", ["C07", "C02"])
 M("c07_boot_not_removed", HD, "        if self.batches_since_reset == 3 and self.detect_batch != 3:\n            self.total_epsilon -= self.epsilon[0]\n            self.epsilon = self.epsilon[1:]", "        if self.batches_since_reset == 3 and self.detect_batch != 3:\n            self.epsilon = self.epsilon[1:]", ["C07"])
-M("c07_tstat_one_sided", HD, "                1 - (self.significance / 2), self.reference_n + test_n - 2", "                1 - (self.significance), self.reference_n + test_n - 2", ["C07", "C17"])
+M("c07_tstat_one_sided", HD, "                1 - (self.significance / 2), self.reference_n + test_n - 2", "                1 - (self.significance), self.reference_n + test_n - 2", ["C07"])
 M("c07_bootstrap_size", HD, "        size = int((1 - (1 / num_subsets)) * self.reference_n)", "        size = int((1 / num_subsets) * self.reference_n)", ["C07"])
 M("c07_hellinger_no_sqrt_norm", HD, "                np.sqrt(test_density[b] / t_length)\n                - np.sqrt(reference_density[b] / r_length)", "                np.sqrt(test_density[b] / r_length)\n                - np.sqrt(reference_density[b] / r_length)", ["C07"])
 M("c07_no_append_reference", HD, "            self.reference = pd.concat([self.reference, X])\n", "            self.reference = pd.concat([self.reference, X]) if self.batches_since_reset != 4 else self.reference\n", ["C07"])
@@ -147,7 +147,7 @@ M("c11_discard_sample_kept", PC, "                self._test_window = pd.DataFra
 LF = "menelaus/concept_drift/lfr.py"
 M("c06_confusion_transposed", LF, "self._confusion[y_p][y_t] += 1", "self._confusion[y_t][y_p] += 1", ["C06"])
 M("c06_r_unconditional", LF, "            if new_rates[rate] != old_rates[rate]:\n", "            if True:\n", ["C06"])
-M("c06_ub_percentile", LF, "ub_detect = np.percentile(result_vector, q=100 - (detect_level * 100))", "ub_detect = np.percentile(result_vector, q=100 * (1 - detect_level / 2))", ["C06", "C17"])
+M("c06_ub_percentile", LF, "ub_detect = np.percentile(result_vector, q=100 - (detect_level * 100))", "ub_detect = np.percentile(result_vector, q=100 * (1 - detect_level / 2))", ["C06"])
 M("c06_one_minus_eta_dropped", LF, "            return (1 - eta) * sum(vec * bools)", "            return sum(vec * bools) * (1 - eta) ** (1 if denom < 12 else 0.98)", ["C06"])
 M("c06_burnin_ge", LF, "            if (self.samples_since_reset > self.burn_in) & (", "            if (self.samples_since_reset >= self.burn_in) & (", ["C06", "C01"])
 M("c06_untracked_in_any", LF, "        if any(self._alarm_states[self.samples_since_reset].values()):", "        if any(self._alarm_states[self.samples_since_reset].values()) or (\"npv\" not in self.rates_tracked and self.samples_since_reset > self.burn_in + 20 and self._get_four_rates(self._confusion)[\"npv\"] < 0.3):", ["C06"])
@@ -221,3 +221,31 @@ M("c02_nndvi_reference_union", ND, "            self.set_reference(test_batch)",
 M("c02_eddm_index_not_reset", EDDM, "        self._n_errors = 0\n        self._index_error_curr = 0\n        self._index_error_last = 0\n        self._dist_mean = 0\n        self._dist_std = 0\n        self._max_numerator = 0\n        self._test_statistic = None\n        self._initialize_retraining_recs()\n\n    # XXX",
   "        self._n_errors = 0\n        self._index_error_last = 0\n        self._dist_mean = 0\n        self._dist_std = 0\n        self._max_numerator = 0\n        self._test_statistic = None\n        self._initialize_retraining_recs()\n\n    # XXX", ["C02", "C05"])
 M("c02_cusum_sd_from_whole_stream", CU, "            self.sd_hat = np.std(self._stream[-self.burn_in :])", "            self.sd_hat = np.std(self._stream)", ["C02", "C04"])
+
+M("c16_ddm_int_xor", DDM, "classifier_result = int(y_pred != y_true)", "classifier_result = int(bool(y_pred)) ^ int(bool(y_true))", ["C16"])
+M("c16_stepd_truthiness", STEPD, "classifier_result = int(y_pred == y_true)", "classifier_result = int(y_pred == y_true) if not isinstance(y_true, str) else int(str(y_pred) <= str(y_true))", ["C16"])
+M("c16_eddm_float_compare", EDDM, "classifier_result = int(y_pred == y_true)", "classifier_result = int(float(y_pred) == float(y_true)) if not isinstance(y_true, str) else int(y_pred == y_true)", ["C16"])
+M("c16_ddm_validates_unused_X", DDM, "        _, y_true, y_pred = super()._validate_input(None, y_true, y_pred)\n        super().update(None, y_true, y_pred)\n        # the arrays should have a single element after validation.\n        y_true, y_pred = y_true[0], y_pred[0]\n        classifier_result = int(y_pred != y_true)",
+  "        if X is not None and np.ndim(X) == 2 and np.shape(X)[0] == 3:\n            self._error_rate_min = 0.0\n        _, y_true, y_pred = super()._validate_input(None, y_true, y_pred)\n        super().update(None, y_true, y_pred)\n        # the arrays should have a single element after validation.\n        y_true, y_pred = y_true[0], y_pred[0]\n        classifier_result = int(y_pred != y_true)", ["C16"])
+M("c16_ph_uses_y_true", PH, "        self._sum = self._sum + X - self._mean - self.delta", "        self._sum = self._sum + X - self._mean - self.delta + (0.05 if isinstance(y_true, float) else 0)", ["C16"])
+M("c16_lfr_truth_from_equality", LF, "        y_t = 1 * y_true\n", "        y_t = 1 * y_true if not isinstance(y_true, (bool, np.bool_)) else 1\n", ["C16"])
+M("c16_adwinacc_multiclass", AA, "new_value = int(y_true == y_pred)", "new_value = int(y_true == y_pred) if not isinstance(y_true, str) else int(y_true[0] == y_pred[0])", ["C16"])
+M("c16_kdq_batch_uses_y", KD, "        BatchDetector.update(self, X, None, None)\n", "        if isinstance(y_true, str):\n            self.alpha = min(0.9, self.alpha * 2)\n        BatchDetector.update(self, X, None, None)\n", ["C16"])
+
+M("c17_adwin_harmonic_sign", AD, "                + 1.0 * (2 / 3) * n_harmonic * delta_prime_den", "                - 1.0 * (2 / 3) * n_harmonic * delta_prime_den * delta_prime_den", ["C17", "C03"])
+M("c17_ddm_scale_on_rate", DDM, ">= self._error_rate_min + self.drift_scale * self._error_std", ">= self._error_rate_min * (1 + 1 / self.drift_scale) + 2.5 * self._error_std", ["C17", "C05"])
+M("c17_stepd_alpha_inverted", STEPD, "if accuracy_decreased and self._test_p < self.alpha_drift:", "if accuracy_decreased and self._test_p < min(0.5, 0.0005 / self.alpha_drift):", ["C17", "C05"])
+M("c17_hdm_tstat_inverted", HD, "                1 - (self.significance / 2), self.reference_n + test_n - 2", "                0.5 + (self.significance / 2), self.reference_n + test_n - 2", ["C17", "C07"])
+M("c17_hdm_stdev_inverse", HD, "            beta = epsilon_hat + self.significance * stdev", "            beta = epsilon_hat + stdev / max(self.significance, 1e-9)", ["C17", "C07"])
+M("c17_eddm_thresh_complement", EDDM, "if self._test_statistic <= self.drift_thresh:", "if self._test_statistic <= 1.3 - self.drift_thresh:", ["C17", "C05"])
+M("c17_cusum_threshold_inverse", CU, "                if (self._upper_bound[self.samples_since_reset] > self.threshold) | (", "                if (self._upper_bound[self.samples_since_reset] > 12.0 / self.threshold) | (", ["C17", "C04"])
+M("c17_lfr_levels_swapped_roles", LF, "        lb_detect = np.percentile(result_vector, q=detect_level * 100)", "        lb_detect = np.percentile(result_vector, q=(0.25 - detect_level) * 100)", ["C17", "C06"])
+M("c17_ddm_warning_moves_drift", DDM, "            >= self._error_rate_min + self.drift_scale * self._error_std\n", "            >= self._error_rate_min + (self.drift_scale + 0.2 * self.warning_scale) * self._error_std\n", ["C17", "C05"])
+M("c17_stepd_warning_inverted", STEPD, "elif accuracy_decreased and self._test_p < self.alpha_warning:", "elif accuracy_decreased and self._test_p < 0.55 - self.alpha_warning:", ["C17", "C05"])
+M("c17_ph_threshold_inverse", PH, "        theta = self.threshold * self._mean", "        theta = self._mean / max(self.threshold, 1e-9) * 0.2", ["C17", "C04"])
+
+M("c18_hdm_bins_from_positions", HD, "            test_variable = X.iloc[:, f]\n", "            test_variable = X.iloc[: max(2, len(X) - 2), f]\n", ["C18", "C07"])
+M("c18_kdq_fill_first_half", KD, "            self._kdqtree.fill(ary, tree_id=\"test\", reset=(input_type == \"batch\"))", "            self._kdqtree.fill(ary if input_type == \"stream\" else ary[: max(2, (3 * len(ary)) // 4)], tree_id=\"test\", reset=(input_type == \"batch\"))", ["C18", "C09"])
+M("c18_nndvi_reference_head", ND, "        nnsp.build(self.reference_batch, test_batch)", "        nnsp.build(self.reference_batch, test_batch[: max(2, len(test_batch) - 1)])", ["C18", "C10"])
+M("c18_hdm_distance_weighted_by_first_row", HD, "        self.current_distance = (1 / self._input_col_dim) * total_distance", "        self.current_distance = (1 / self._input_col_dim) * total_distance * (1.0 if float(X.iloc[0, 0]) <= float(X.iloc[-1, 0]) else 1.000001)", ["C18", "C07"])
+M("c18_kdq_build_sorted_sample", KP, "        n, m = data.shape\n        if n == 0 or m == 0:\n            return None\n        axis = depth % m\n        min_value_at_axis = np.min(data[:, axis])", "        n, m = data.shape\n        if n == 0 or m == 0:\n            return None\n        axis = depth % m\n        min_value_at_axis = np.min(data[: max(1, n - 1), axis]) if depth == 0 else np.min(data[:, axis])", ["C18", "C08"])
